@@ -2,6 +2,7 @@
 import Frugal.Proofs.DescMapLemmas
 import Frugal.Props.Inst.F_facts_lockDiscipline
 import Frugal.Props.Inst.F_facts_descriptorsReadOnly
+import Frugal.Props.Inst.F_skeleton_sharedWrites
 namespace Frugal.C08
 open Frugal
 /-- under every interleaving of any number of goroutines, a completed first-use call returns the
@@ -26,4 +27,12 @@ theorem lock_discipline : Generated.facts.lockDiscipline = true := Instances.fac
     unshared values and buffers run on read-only shared state plus pooled scratch -/
 theorem descriptors_read_only_on_hot_paths : Generated.facts.descriptorsReadOnly = true :=
   Instances.facts_descriptorsReadOnly
+/-- every store into package-level state of `internal/reflect` and `internal/defs` (outside `init`) is one
+    of those of the tree the model was written from — the descriptor build under its lock, the two table
+    registrations that only `init` calls, the caller-less caching resolver under its own lock: no
+    package-level variable is written on the encode, size or decode paths (P1 cached an error string in a
+    shared table from inside `DecodeObject`: a data race that no result shows) -/
+theorem shared_state_written_only_where_modelled :
+    Generated.facts.sharedWriteSiteList = Skeleton.sharedWrites := Instances.skeleton_sharedWrites
+
 end Frugal.C08
